@@ -31,6 +31,8 @@ def make_cases_for(tier, seed):
             yield ("B", 0, shape), shape
         for iv, shape in enumerate(GS.shapes(("op", "ctx", "hold", "end", "br", "jump"), 3 if quick else 4, 2, wellformed=True)):
             yield ("B", iv % 5, shape), shape
+        for i in range(N_FALLBACK_PARAM_SETS):
+            yield ("F", i), i
     return make_cases
 
 
@@ -43,7 +45,8 @@ def rule_text(tier):
             + ("" if quick else "(and 4) ") + "cases x 7 body kinds per case (break only, op + break, op + return, jump behind the switch, fall through ..) x default none / last / grouped) and (B) every well-formed G-ssb routine set with <= "
             + ("3" if quick else "4") + " ops in <= 2 routines over {op, branch, jump, return, end, call, switch, case} (every jump "
             "target, every split, unreachable ops, cross-routine jumps, routines starting with a Jump), single routines with "
-            + ("4" if quick else "4-5") + " ops over {op, branch, jump, end}, and sets with context ops / hold")
+            + ("4" if quick else "4-5") + " ops over {op, branch, jump, end}, sets with context ops / hold, and (F) 38 sets that take the "
+            "SsbScript fallback and carry one parameter value of every kind (negative position-mark coordinates, strings with quotes / new lines ..)")
 
 
 def materialise(cid, case):
@@ -68,8 +71,42 @@ def materialise(cid, case):
         if not lts.machine_wellformed(m, entries):
             return None
         return comp.routine_ops, comp.routine_infos, comp.named_coroutines, text, case
+    if cid[0] == "F":
+        return fallback_param_set(case) + (None, None)
     rops, infos, coros = GS.materialize(case, SEED, info_variant=cid[1])
     return rops, infos, coros, None, None
+
+
+def param_values():
+    from explorerscript.ssb_converting.ssb_data_types import (SsbOpParamConstant, SsbOpParamConstString, SsbOpParamLanguageString,
+                                                             SsbOpParamFixedPoint, SsbOpParamPositionMarker)
+    return [
+        0, -1, 32767, -32768, SsbOpParamFixedPoint(1, "5"), SsbOpParamFixedPoint(-3, "25"),
+        SsbOpParamFixedPoint(SsbOpParamFixedPoint.NegativeZero, "5"), SsbOpParamConstant("CONST_A"), SsbOpParamConstant("$VAR_A"),
+        SsbOpParamConstString(""), SsbOpParamConstString("it's"), SsbOpParamConstString('say "x"'), SsbOpParamConstString("two\nlines"),
+        SsbOpParamConstString(" lead\n and trail "), SsbOpParamLanguageString({"english": "a", "german": "b\nc"}),
+        SsbOpParamPositionMarker("m0", 0, 0, 1, 2), SsbOpParamPositionMarker("m1", 2, 0, -1, 4), SsbOpParamPositionMarker("m 2's", 0, 2, 5, -1),
+        SsbOpParamPositionMarker("m3", 2, 2, -1, -1),
+    ]
+
+
+N_FALLBACK_PARAM_SETS = 19 * 2
+
+
+def fallback_param_set(i):
+    """(F) a routine set that takes the SsbScript fallback (a Case op without a switch) and carries one parameter value of
+    every kind, in the routine that fails or in the other one."""
+    from explorerscript.ssb_converting.ssb_data_types import SsbOperation, SsbOpCode, SsbRoutineInfo, SsbRoutineType
+    v = param_values()[i // 2]
+
+    def O(off, name, params):
+        return SsbOperation(off, SsbOpCode(-1, name), params)
+    bad = [O(20, "op0", []), O(21, "Case", [0, 21]), O(24, "Jump", [21])]
+    if i % 2 == 0:
+        rops = [[O(1, "holder", [7, v]), O(5, "BranchDebug", [1, 5]), O(8, "End", [])], bad]
+    else:
+        rops = [[O(1, "End", [])], [O(20, "holder", [v, v]), O(24, "Case", [0, 24]), O(27, "Jump", [24])]]
+    return rops, [SsbRoutineInfo(SsbRoutineType.GENERIC, 0), SsbRoutineInfo(SsbRoutineType.ACTOR, 3)], [None, None]
 
 
 def nontrivial(rops):
